@@ -2,6 +2,7 @@ package main
 
 import (
 	"fmt"
+	"math"
 
 	"gitee.com/xuesongtao/protoc-go-valid/valid"
 	"verif/internal/lrumodel"
@@ -213,6 +214,51 @@ func valueDependentKeys(c *runner.Ctx) {
 				_ = bi
 				c.Done(true, calls)
 				if ok {
+					c.Outcome("ok")
+				}
+			}
+		}
+	}
+}
+
+// irreflexiveKeys: keys that are not equal to themselves (a NaN, a struct or array that holds one). Go's maps accept
+// them; every Store of such a key is a new entry that no Load can find again. The cache still has to stay within its
+// capacity and keep Len truthful while such entries are evicted.
+func irreflexiveKeys(c *runner.Ctx) {
+	c.Space("keys-not-equal-to-themselves")
+	nan := math.NaN()
+	keys := []struct {
+		name string
+		k    interface{}
+	}{{"NaN", nan}, {"float32 NaN", float32(nan)}, {"struct{F float64}{NaN}", struct{ F float64 }{nan}}, {"[2]float64{1, NaN}", [2]float64{1, nan}}}
+	for _, capacity := range []int{1, 2, 3} {
+		for _, k := range keys {
+			for pre := 0; pre <= 2; pre++ { // ordinary entries stored before
+				if !c.Take() {
+					continue
+				}
+				lru := valid.NewLRU(capacity)
+				evicted := 0
+				lru.SetDelCallBackFn(func(_, _ interface{}) { evicted++ })
+				for i := 0; i < pre; i++ {
+					lru.Store(i, i)
+				}
+				lru.Store(k.k, "x")
+				for i := 0; i < capacity; i++ { // pushes the entry out
+					lru.Store(100+i, i)
+				}
+				det := map[string]interface{}{"capacity": capacity, "key": k.name, "ordinary_entries_before": pre, "then": fmt.Sprintf("%d more stores, Len", capacity)}
+				n := lru.Len()
+				c.Done(true, pre+capacity+2)
+				switch {
+				case n == -1:
+					c.Outcome("len-sentinel")
+					c.Violation("keys-not-equal-to-themselves/len-sentinel", det)
+				case n != capacity:
+					c.Violation("keys-not-equal-to-themselves/len-mismatch", det)
+				case evicted != pre+1:
+					c.Violation("keys-not-equal-to-themselves/callback-count", det)
+				default:
 					c.Outcome("ok")
 				}
 			}
